@@ -3,6 +3,8 @@ import Mkdb.Proofs.Wal
 import Mkdb.Proofs.RedoLink
 import Mkdb.Proofs.ReplayInsert
 import Mkdb.Proofs.ReplayMixed
+import Mkdb.Proofs.ReplayCkpt
+import Mkdb.Proofs.ReplayCounter
 /-!
 # C02 — acknowledged statements survive a crash between statements
 
@@ -100,13 +102,36 @@ theorem C02_redo_of_unflushed_inserts (sch : Levels) {s0 sN : Store} {tbls tblsN
 
 /-- **C02.recovery_of_a_flushed_database_changes_nothing**: a log every record of which is already
 applied - its page carries an LSN at least the record's, or it is an INSERT of a key the table
-already holds - is replayed without error and without any visible change; only the LSN counter
-moves, to the largest LSN seen (clean shutdown, and running recovery a second time). -/
+already holds - and none of whose INSERT records carries a key beyond the row-id counter is replayed
+without error and without any visible change; only the LSN counter moves, to the largest LSN seen
+(clean shutdown, and running recovery a second time).
+
+*Statement changed with the repair of the row-id counter in recovery* (corpus `C04/F27`): `replayOne`
+now raises `lastKey` to the key of every INSERT record before the page-LSN test, so also for a record
+it then skips.  Without the new hypothesis `hkeys` the old conclusion is false: a skipped INSERT
+record with `r.cell > s.hdr.lastKey` raises the counter (that is the repair: after a torn flush the
+pages may be ahead of the header).  `hkeys` holds in every state a complete flush leaves behind: every
+logged insert key was handed out by the counter, and the flush wrote the counter
+(`Ckpt.keys` in `ReplayCkpt7`).  The form without the hypothesis is `replay_clean_gen`, restated
+next: the row-id counter ends at the largest INSERT key of the log, if that is beyond it. -/
 theorem C02_recovery_of_a_flushed_database_changes_nothing (log : List WalRec) (s : Store) (pt sch : Levels)
-    (tbls : List (Bytes × Levels)) (h : Cat s pt sch tbls) (hall : ∀ r ∈ log, Applied tbls s r) :
+    (tbls : List (Bytes × Levels)) (h : Cat s pt sch tbls) (hall : ∀ r ∈ log, Applied tbls s r)
+    (hkeys : ∀ r ∈ log, r.op = Generated.c_OpInsert → r.cell ≤ s.hdr.lastKey) :
     ∃ s', replayAll log s = (s', none, false) ∧ view s' = view s ∧ Cat s' pt sch tbls ∧
       s'.hdr = { s.hdr with nextLSN := log.foldl (fun m r => max m r.lsn) s.hdr.nextLSN } :=
-  replay_clean log s pt sch tbls h hall
+  replay_clean log s pt sch tbls h hall hkeys
+
+/-- **C02.recovery_of_an_applied_log_changes_only_the_counters**: the same without the hypothesis on
+the keys: no visible change, and of the header only the two counters move - `nextLSN` to the largest
+LSN of the log, the row-id counter to the largest key of an INSERT record of the log (`maxKey`),
+skipped records included. -/
+theorem C02_recovery_of_an_applied_log_changes_only_the_counters (log : List WalRec) (s : Store)
+    (pt sch : Levels) (tbls : List (Bytes × Levels)) (h : Cat s pt sch tbls)
+    (hall : ∀ r ∈ log, Applied tbls s r) :
+    ∃ s', replayAll log s = (s', none, false) ∧ view s' = view s ∧ Cat s' pt sch tbls ∧
+      s'.hdr = { s.hdr with nextLSN := log.foldl (fun m r => max m r.lsn) s.hdr.nextLSN,
+                            lastKey := maxKey log s.hdr.lastKey } :=
+  replay_clean_gen log s pt sch tbls h hall
 
 end Mkdb.Store
 
@@ -143,5 +168,60 @@ theorem C02_mixed_history_is_redone (sch : Levels) {s0 sN : Store} {tbls tblsN :
       rN.hdr.nextFree = sN.hdr.nextFree ∧ rN.hdr.lastKey = sN.hdr.lastKey ∧
       rN.hdr.ptRoot = sN.hdr.ptRoot ∧ rN.hdr.nextLSN ≤ sN.hdr.nextLSN :=
   replay_history_mixed sch run pt h hself hf
+
+end Mkdb.Store
+
+namespace Mkdb.Store
+open Mkdb.Engine Mkdb.Tree Mkdb.Page Mkdb.Generated
+
+/-- **C02.crash_after_a_checkpoint** (the log is never truncated): as
+`C02_acknowledged_statements_survive_an_unflushed_crash`, but the database the statements start from
+may carry any log whose records are already applied on it and behind its counters - what every flush
+and every recovery leaves (`C02_rounds_*`).  The WHOLE log - old records, then the records of the
+statements - is replayed on the store the statements started from. -/
+theorem C02_crash_after_a_checkpoint (sch : Levels) {db0 dbN : Engine.DB} {sdb0 sdbN : Spec.SDB} {stmts : List EStmt}
+    (run : SpecRun sch db0 sdb0 stmts dbN sdbN)
+    (pt : Levels) (tbls : List (Bytes × Levels)) (hA : AbsV db0.store pt sch tbls sdb0)
+    (hself : PtSelf pt) (hf : FreshM db0.store tbls)
+    (hold : ∀ r ∈ db0.wal, Applied tbls db0.store r)
+    (hlsn : ∀ r ∈ db0.wal, r.lsn ≤ db0.store.hdr.nextLSN)
+    (hkeys : ∀ r ∈ db0.wal, r.op = c_OpInsert → r.cell ≤ db0.store.hdr.lastKey) :
+    ∃ ptN tblsN rN, replayAll dbN.wal db0.store = (rN, none, false) ∧
+      AbsV dbN.store ptN sch tblsN sdbN ∧ AbsV rN ptN sch tblsN sdbN ∧
+      (∀ x ∈ catTrees ptN sch tblsN, ∀ o ∈ offs x, view rN o = view dbN.store o) ∧
+      rN.hdr.nextFree = dbN.store.hdr.nextFree ∧ rN.hdr.lastKey = dbN.store.hdr.lastKey ∧
+      rN.hdr.ptRoot = dbN.store.hdr.ptRoot ∧ rN.hdr.nextLSN ≤ dbN.store.hdr.nextLSN :=
+  crash_recovery_ckpt sch run pt tbls hA hself hf hold hlsn hkeys
+
+/-- **C02.rounds_keep_the_checkpoint_invariant**: any number of rounds, each `statements ; flush`
+(any page write order) or `statements ; crash ; start-up recovery` (`Engine.recover`: replay of the
+whole log on the reopened data file, LSN bump, two flushes), starting from a checkpointed database
+(`Ckpt`: abstraction to the plain database, all catalog pages clean and in the data file, every log
+record applied and behind the counters) end in a checkpointed database for the plain database of ALL
+statements acknowledged so far. -/
+theorem C02_rounds_keep_the_checkpoint_invariant {sch : Levels} {db db' : Engine.DB} {sdb sdb' : Spec.SDB}
+    (hist : Rounds sch db sdb db' sdb') {pt : Levels} {tbls : List (Bytes × Levels)}
+    (h : Ckpt sch db sdb pt tbls) : ∃ pt' tbls', Ckpt sch db' sdb' pt' tbls' :=
+  rounds_ckpt hist h
+
+/-- **C02.rounds_no_recovery_fails**: in such a history no recovery fails, and after it the store
+abstracts to the plain database of the acknowledged statements with a log that is applied in full
+(so running recovery again changes nothing: `C02_recovery_of_a_flushed_database_changes_nothing`). -/
+theorem C02_rounds_no_recovery_fails {sch : Levels} {db db1 dbN : Engine.DB} {sdb sdb1 sdbN : Spec.SDB}
+    {stmts : List EStmt} {pt : Levels} {tbls : List (Bytes × Levels)} (h : Ckpt sch db sdb pt tbls)
+    (hist : Rounds sch db sdb db1 sdb1) (run : SpecRun sch db1 sdb1 stmts dbN sdbN) (o1 o2 : List Nat) :
+    ∃ db2, Engine.recover dbN o1 o2 = .ok db2 ∧ Rounds sch db sdb db2 sdbN ∧
+      ∃ pt2 tbls2, AbsV db2.store pt2 sch tbls2 sdbN ∧ ∀ r ∈ db2.wal, Applied tbls2 db2.store r :=
+  rounds_recover h hist run o1 o2
+
+/-- **C02.never_reuses_a_row_id** (any store, any log, any placement of flushes - also a flush torn
+between its page writes and its header write): when the replay runs to its end, the row-id counter is
+at least the key of EVERY logged insert - redone, tolerated or skipped because its page had already
+reached the data file - and never below its old value; the next INSERT takes `counter + 1`.
+(Before repair fa35ced a skipped record did not raise the counter; `skipped_example` in
+Proofs/ReplayCounter.lean is the witness, kernel-checked.) -/
+theorem C02_never_reuses_a_row_id (log : List WalRec) (s s' : Store) (h : replayAll log s = (s', none, false)) :
+    (∀ r ∈ log, r.op = c_OpInsert → r.cell ≤ s'.hdr.lastKey) ∧ s.hdr.lastKey ≤ s'.hdr.lastKey :=
+  replayAll_counter log s s' h
 
 end Mkdb.Store
